@@ -34,6 +34,20 @@ structure Epoch where
 `(start + stop)/2`: with everything doubled, the number of elements `a` with `2a < start + stop`. -/
 def bisectOdd2 (arr : List Int) (twice : Int) : Bool := (arr.filter fun a => decide (2 * a < twice)).length % 2 == 1
 
+/-- `_bisect_odd(array, value)` at a time that is not one of the marks -/
+def bisectOdd (arr : List Int) (t : Int) : Bool := (arr.filter fun a => decide (a < t)).length % 2 == 1
+
+/-- the flags `function(met + precision)` of an alternating status with value `s0` at the window start: right after the i-th transition
+(counting from 0) the status has flipped i + 1 times -/
+def entrOf (s0 : Bool) (n : Nat) : List Bool := (List.range n).map fun i => if i % 2 == 0 then !s0 else s0
+
+/-- the end of `xIXPETrajectory._generic_binary_search`: `ts` are the transition times located inside the window, `entr` the status right
+after each of them; no transition at all: the whole window or nothing; otherwise a leading exit gets the window start in front and a trailing
+entrance gets the window stop at the end, so that the marks can be read in pairs (and by `_bisect_odd`) -/
+def closeEnds (start stop : Int) (s0 : Bool) (ts : List Int) (entr : List Bool) : List Int :=
+  if ts.isEmpty then (if s0 then [start, stop] else [])
+  else (if entr.head? = some false then [start] else []) ++ ts ++ (if entr.getLast? = some true then [stop] else [])
+
 /-- `_calculate_epochs(mets, saa_mets, occult_mets)` -/
 def calcEpochs (saa occ : List Int) : List Int → List Epoch
   | a :: b :: rest => ⟨a, b, bisectOdd2 saa (a + b), bisectOdd2 occ (a + b)⟩ :: calcEpochs saa occ (b :: rest)
